@@ -1222,6 +1222,37 @@ public:
   FilteredDirectoryContentsTask(StringRef path, StringList&& filters)
       : path(path), filters(std::move(filters))
       , directoryValue(BuildValue::makeInvalid()) {}
+
+  static bool isResultValid(BuildEngine& engine, StringRef path,
+                            const StringList& filters,
+                            const BuildValue& value) {
+    // As for unfiltered directory contents, the result is valid if the
+    // existence and type match the existing value, and the (filtered) listing
+    // is unchanged. The stat information of the directory alone cannot tell:
+    // entries can come and go while it stays the same (e.g. when timestamps
+    // are preserved, or are not looked at by the file system in use).
+    auto info = getBuildSystem(engine).getFileSystem().getFileInfo(path);
+    if (info.isMissing())
+      return value.isMissingInput();
+
+    if (!info.isDirectory())
+      return value.isExistingInput() && value.getOutputInfo() == info;
+
+    if (!value.isFilteredDirectoryContents())
+      return false;
+
+    std::vector<std::string> cur;
+    (void)getFilteredContents(path, filters, cur);
+
+    auto prev = value.getDirectoryContents();
+    if (cur.size() != prev.size())
+      return false;
+    for (size_t i = 0; i != cur.size(); ++i) {
+      if (prev[i] != cur[i])
+        return false;
+    }
+    return true;
+  }
 };
 
 
@@ -1841,7 +1872,12 @@ std::unique_ptr<Rule> BuildSystemEngineDelegate::lookupRule(const KeyType& keyDa
         BinaryDecoder decoder(patterns);
         return new FilteredDirectoryContentsTask(path, StringList(decoder));
       },
-      /*IsValid=*/ nullptr
+      /*IsValid=*/ [path, patterns](BuildEngine& engine, const Rule& rule,
+          const ValueType& value) mutable -> bool {
+        BinaryDecoder decoder(patterns);
+        return FilteredDirectoryContentsTask::isResultValid(
+            engine, path, StringList(decoder), BuildValue::fromData(value));
+      }
     ));
   }
 
